@@ -1,0 +1,20 @@
+//! Read-only verification hooks (feature `verif-hooks`).
+use super::WTinyLFUCache;
+use crate::lfu::tinylfu::TinyLFU;
+use crate::lru::SegmentedCache;
+use crate::LRUCache;
+use core::hash::Hash;
+
+impl<K: Hash, V, KH, FH, RH, WH> WTinyLFUCache<K, V, KH, FH, RH, WH> {
+    /// The window list, the segmented main cache and the estimator.
+    #[allow(clippy::type_complexity)]
+    pub fn verif_parts(
+        &self,
+    ) -> (
+        &LRUCache<K, V, WH>,
+        &SegmentedCache<K, V, FH, RH>,
+        &TinyLFU<K, KH>,
+    ) {
+        (&self.lru, &self.slru, &self.tinylfu)
+    }
+}
